@@ -236,7 +236,9 @@ class RandomLineAccessFile(BaseRandomLineAccessFile[str]):
         """
 
         if self.file is None:
-            self.file = open(self.path_to, "r")
+            # newline="\n": lines are delimited by "\n" only (as in the line offsets index and in the memory mapped
+            # variant), so a carriage return is an ordinary character of a line
+            self.file = open(self.path_to, "r", newline="\n")
             self._opened_in_process_with_id = os.getpid()
 
         return self
